@@ -1330,7 +1330,8 @@ def gen_proc_ops(rng, n, bursts=False):
     ops = []
     for _ in range(n):
         if bursts and rng.chance(1, 4):
-            inner = [x for x in gen_proc_ops(rng, rng.range(2, 4)) if x[0] not in ('Adv', 'PeerAccept', 'Remove')]
+            inner = [x for x in gen_proc_ops(rng, rng.range(2, 4))
+                     if x[0] not in ('Adv', 'AdvStopped', 'AdvRival', 'PeerAccept', 'Remove')]
             if len(inner) >= 2:
                 ops.append(['burst', inner])
                 continue
@@ -1341,8 +1342,12 @@ def gen_proc_ops(rng, n, bursts=False):
             ops.append(['LeCreate', rng.below(2), a])
         elif r < 22:
             ops.append(['LeCancel'])
-        elif r < 40:
+        elif r < 34:
             ops.append(['Adv', rng.choice([2, 3])])
+        elif r < 37:
+            ops.append(['AdvStopped', rng.choice([2, 3])])
+        elif r < 40:
+            ops.append(['AdvRival', rng.choice([2, 3])])
         elif r < 50:
             ops.append(['Disconnect', h])
         elif r < 62:
@@ -1385,6 +1390,9 @@ def _abs_event(p):
     return None
 
 
+LAST_PROC_STATS = {}
+
+
 async def _run_proc_ops(ops):
     """ops: steps; a step ['burst', [step, ...]] issues its steps back to back, without giving the
     link a loop turn in between (commands while PDUs are in flight); every other step is followed by
@@ -1401,13 +1409,16 @@ async def _run_proc_ops(ops):
         ps = Sink()
         peers[k] = Controller(f'p{k}', host_sink=ps, link=the_link, public_address=PADDR[k])
         peers[k].test_sink = ps
+    rival = Controller('rival', host_sink=Sink(), link=the_link, public_address='C0:00:00:00:00:04')
+    races = [0]
+    lost = [0]                   # connections the CUT announced and whose ConnectInd came too late
     removed = set()
     model_groups = []
     issued = {}                  # opcode -> [(kind, step), ...] commands sent to the CUT, oldest first
     flat = []
     for step in ops:
         if step[0] == 'burst':
-            inner = [x for x in step[1] if x[0] not in ('Adv', 'PeerAccept', 'Remove', 'burst')]
+            inner = [x for x in step[1] if x[0] not in ('Adv', 'AdvStopped', 'AdvRival', 'PeerAccept', 'Remove', 'burst')]
             for k, x in enumerate(inner):
                 flat.append((x, k == 0, k == len(inner) - 1))
         else:
@@ -1463,15 +1474,44 @@ async def _run_proc_ops(ops):
             cmd = hci.HCI_Remote_Name_Request_Command(bd_addr=A(o[1]), page_scan_repetition_mode=0, reserved=0,
                                                       clock_offset=0)
             model_ops.append(f'Cmd (RemoteName {o[1]})')
-        elif kind == 'Adv':
+        elif kind in ('Adv', 'AdvStopped', 'AdvRival'):
             if o[1] in removed:
                 continue
             p = peers[o[1]]
+            cut_addr = hci.Address(ADDR_CUT, hci.Address.PUBLIC_DEVICE_ADDRESS)
+            had = bool(cut.le_connections.get(A(o[1])))
+            if kind == 'AdvRival' and not rival.pending_le_connection and not rival.le_connections.get(A(o[1])):
+                # a second central waits for the same advertiser: one of the two ConnectInds comes too late
+                rival.on_packet(bytes(hci.HCI_LE_Create_Connection_Command(
+                    le_scan_interval=16, le_scan_window=16, initiator_filter_policy=0, peer_address_type=0,
+                    peer_address=A(o[1]), own_address_type=0, connection_interval_min=6, connection_interval_max=6,
+                    max_latency=0, supervision_timeout=10, min_ce_length=0, max_ce_length=0)))
             p.on_packet(bytes(adv_params()))
             p.on_packet(bytes(hci.HCI_LE_Set_Advertising_Enable_Command(advertising_enable=1)))
-            await settle(10)
-            p.on_packet(bytes(hci.HCI_LE_Set_Advertising_Enable_Command(advertising_enable=0)))
-            model_ops.append(f'Adv {o[1]}')
+            if kind == 'AdvStopped':
+                # the host of the advertiser disables advertising while the CUT's ConnectInd is in flight
+                for _ in range(8):
+                    if not had and cut.le_connections.get(A(o[1])):
+                        break
+                    await asyncio.sleep(0)
+                p.on_packet(bytes(hci.HCI_LE_Set_Advertising_Enable_Command(advertising_enable=0)))
+                await settle(10)
+                model_ops.append(f'Adv {o[1]}')
+                model_ops.append(f'PeerAdvOff {o[1]}')
+            else:
+                await settle(10)
+                p.on_packet(bytes(hci.HCI_LE_Set_Advertising_Enable_Command(advertising_enable=0)))
+                model_ops.append(f'Adv {o[1]}')
+                created = not had and any((_abs_event(x) or [None])[0] == 2 and _abs_event(x)[1] == 0
+                                          for x in sink.packets[seen:])
+                if created and cut_addr not in p.le_connections:
+                    # the rival's ConnectInd got there first: for the CUT the advertiser had stopped
+                    model_ops.append(f'PeerAdvOff {o[1]}')
+                    races[0] += 1
+                model_groups.append([f'PeerAdvOff {o[1]}'])
+            if not had and any((_abs_event(x) or [None])[0] == 2 and _abs_event(x)[1] == 0 for x in sink.packets[seen:]) \
+                    and cut_addr not in p.le_connections:
+                lost[0] += 1
         elif kind == 'PeerAccept':
             p = peers[o[1]]
             reqs = [x for x in p.test_sink.packets if event_code(x) == (0x04, None)]
@@ -1483,9 +1523,9 @@ async def _run_proc_ops(ops):
             model_ops.append(f'PeerAccept {o[1]}')
         elif kind == 'PeerDisconnect':
             p = peers[o[1]]
-            if o[1] not in removed and p.le_connections:
-                hnd = next(iter(p.le_connections.values())).handle
-                p.on_packet(bytes(hci.HCI_Disconnect_Command(connection_handle=hnd, reason=0x13)))
+            mine = p.le_connections.get(hci.Address(ADDR_CUT, hci.Address.PUBLIC_DEVICE_ADDRESS))
+            if o[1] not in removed and mine:
+                p.on_packet(bytes(hci.HCI_Disconnect_Command(connection_handle=mine.handle, reason=0x13)))
                 model_ops.append(f'PeerDisconnect {o[1]}')
         elif kind == 'Remove':
             if o[1] in removed:
@@ -1538,8 +1578,12 @@ async def _run_proc_ops(ops):
                 for e in ledger:
                     if e[0] == 'le-create' and not e[2]:
                         e[2] = True
+                if ev[1] == 0 and ev[3] in (2, 3) and ev[3] not in removed and \
+                        hci.Address(ADDR_CUT, hci.Address.PUBLIC_DEVICE_ADDRESS) not in peers[ev[3]].le_connections:
+                    ledger.append(['le-connection-announced', ev[2], False, False])
             elif ev[0] == 3:
                 conclude('disconnect', ev[1])
+                conclude('le-connection-announced', ev[1])
                 for e in ledger:         # procedures on the connection end with it
                     if e[0] in ('le-read-remote-features',) and e[1] == ev[1]:
                         e[2] = True
@@ -1560,6 +1604,7 @@ async def _run_proc_ops(ops):
                 br_conn.discard(k)
     events = [_abs_event(p) for p in sink.packets]
     unknown = [p.hex() for p in sink.packets if _abs_event(p) is None]
+    LAST_PROC_STATS.update({'races_lost_to_rival': races[0], 'connectind_too_late': lost[0]})
     return [g for g in model_groups if g], events, ledger, unknown
 
 
@@ -1583,11 +1628,20 @@ def campaign_proc_model(ctx):
         [['burst', [['ClassicCreate', 3], ['ClassicCreate', 3], ['RemoteName', 3], ['LeCreate', 1, 2], ['LeCancel']]],
          ['PeerAccept', 3], ['burst', [['Disconnect', 1], ['ClassicCreate', 3]]]],
     ]
+    # D06d: the advertiser stops while the ConnectInd is in flight; two centrals wait for one advertiser
+    cases += [
+        [['LeCreate', 0, 2], ['AdvStopped', 2], ['ReadFeat', 1], ['LeCreate', 0, 2], ['Adv', 2], ['ReadFeat', 1]],
+        [['LeCreate', 1, 2], ['AdvRival', 2], ['ReadFeat', 1], ['Disconnect', 1], ['LeCreate', 0, 2], ['Adv', 2]],
+        [['LeCreate', 0, 3], ['AdvRival', 3], ['burst', [['Encrypt', 1], ['Disconnect', 1]]], ['LeCreate', 0, 3],
+         ['AdvStopped', 3]],
+    ]
     for k in range(ctx.n(250, 10000)):
         cases.append(gen_proc_ops(rng, rng.choice([3, 6, 10, 16]), bursts=(k % 2 == 1)))
     runs, exprs = [], []
     for ops in cases:
         (groups, events, ledger, unknown), errors = run_async(_run_proc_ops, ops)
+        for kk, vv in LAST_PROC_STATS.items():
+            ctx.count('C2.' + kk, vv)
         runs.append((ops, groups, events, ledger, unknown, errors))
         exprs.append('groups_obs [2; 3] [' + '; '.join('[' + '; '.join(g) + ']' for g in groups) + ']')
     model = ctx.coq_eval(['Model.CtrlProc'], exprs)
